@@ -11,6 +11,8 @@ U = "U"   # the unbound state
 
 # ----------------------------------------------------------------------------------------------- (a) primitives
 def prim_search():
+    from replay.util import count
+    count(evaluations=0, distinct=0)
     from pyanalyze.stacked_scopes import FunctionScope, Scope, ScopeType, LEAVES_LOOP, LEAVES_SCOPE, _UNINITIALIZED, VisitorState
     from pyanalyze.value import KnownValue
     n1, n2 = object(), object()
@@ -37,6 +39,7 @@ def prim_search():
                 fs = mk()
                 before = list(fs.current_loop_scopes)
                 res = fs.get_combined_scope([dict(s) for s in scopes], ignore_leaves_scope=ign)
+                count(evaluations=1, distinct=1)
                 kept = [s for s in scopes if LEAVES_LOOP not in s and (LEAVES_SCOPE not in s or ign)]
                 handed = fs.current_loop_scopes[len(before):]
                 if [h for h in handed] != [s for s in scopes if LEAVES_LOOP in s]:
@@ -290,16 +293,23 @@ def stmt(st, s, lib, res):
             for x in (o.n, o.b, o.c, o.r, o.e):
                 allin = j(allin, x)
             if lib == "kf":
-                # visit_Try wraps try/except/else in a suppressing subscope: all definitions inside reach the finally body
+                # visit_Try wraps try/except/else in a suppressing subscope: all definitions inside reach the *uses in the finally
+                # body* (its visit for the failure path); the state after the statement is the success path's (precise)
                 extra = defs_in([st[1], [hb for _, hb in st[2]], st[3] or []])
+                block(st[4], j(j(allin, s), extra), lib, res)
                 o.e = j(j(o.e, s), extra)
-                o.n, o.b, o.c, o.r = (j(x, extra) if x is not None else None for x in (o.n, o.b, o.c, o.r))
             block(st[4], allin, lib, res) if allin is None else None
             pre_b, pre_c = o.b, o.c
             o = Out(fin(o.n), fin(o.b), fin(o.c), fin(o.r), fin(o.e))
             if lib == "kf":
-                # a break / continue scope is handed to the loop directly: it bypasses the finally body
+                # a break / continue scope is handed to the loop directly: it bypasses the finally body; a jump sitting in a dead
+                # part of the statement (D39) hands over whatever definitions the visitor had there
                 o.b, o.c = j(o.b, pre_b), j(o.c, pre_c)
+                inner = repr([st[1], [hb for _, hb in st[2]], st[3] or []])
+                if "('break',)" in inner:
+                    o.b = j(o.b, j(s, extra))
+                if "('continue',)" in inner:
+                    o.c = j(o.c, j(s, extra))
             elif lib == "strict-kf":
                 o.b, o.c = pre_b, pre_c
         return o
@@ -398,6 +408,51 @@ def programs(seed, count, depth):
     return out
 
 
+def structured():
+    """a systematic family next to the random one: an assignment guarded by `if` and followed by a jump, inside every block
+    context, with uses inside the handlers / finally body and after the statement, with and without an earlier definition"""
+    out = []
+    uid = [0]
+
+    def use():
+        uid[0] += 1
+        return ("use", uid[0])
+    for pre in (False, True):
+        for jump in ("return", "raise", "break", "continue", None):
+            for ctx in ("try_finally", "try_except", "try_except_finally", "try_bare", "with", "if_else", "while", "for_else", "while_true"):
+                uid[0] = 0
+                inner = [("if", [("asg", 1)] + ([(jump,)] if jump else []), None), use()]
+                in_loop = ctx in ("while", "for_else", "while_true")
+                if jump in ("break", "continue") and not in_loop:
+                    # the jump needs an enclosing loop: put the whole statement into one
+                    wrap_loop = True
+                else:
+                    wrap_loop = False
+                if ctx == "try_finally":
+                    st = ("try", inner, [], None, [use()])
+                elif ctx == "try_except":
+                    st = ("try", inner, [("exc", [use(), ("asg", 2)])], None, None)
+                elif ctx == "try_except_finally":
+                    st = ("try", inner, [("exc", [use()])], [("asg", 3)], [use()])
+                elif ctx == "try_bare":
+                    st = ("try", inner, [("bare", [use()])], None, None)
+                elif ctx == "with":
+                    st = ("with", inner)
+                elif ctx == "if_else":
+                    st = ("if", inner, [("asg", 4)])
+                elif ctx == "while":
+                    st = ("while", inner, None)
+                elif ctx == "for_else":
+                    st = ("for", inner, [use(), ("asg", 5)])
+                else:
+                    if jump != "break":
+                        continue
+                    st = ("whiletrue", inner, None)
+                body = ([("asg", 9)] if pre else []) + ([("while", [st, use()], None)] if wrap_loop else [st]) + [use()]
+                out.append(body)
+    return out
+
+
 def reported(progs):
     """-> per program: {use id: set of literals / U} from the real visitor"""
     from replay.checkcode import check_code
@@ -438,15 +493,23 @@ def reported(progs):
 
 
 def sandwich(seed, count, depth, batch=150, collect=None):
-    progs = programs(seed, count, depth)
+    progs = programs(seed, count, depth) if seed != "structured" else structured()
     for off in range(0, len(progs), batch):
         chunk = progs[off:off + batch]
         rep, src = reported(chunk)
         for body, got in zip(chunk, rep):
+            from replay.util import count, sample
+            count(evaluations=len(got), distinct=1)
             strict = analyse(body, False)
             liberal = analyse(body, True)
             liberal_kf = analyse(body, "kf")
             strict_kf = analyse(body, "strict-kf")
+            if off == 0 and body is chunk[0]:
+                _l, _u = ["def f() -> None:"], {}
+                render(body, 1, _l, _u)
+                sample({"program": "\n".join(_l), "strict": {k: sorted(map(str, v)) if v is not None else None for k, v in strict.items()},
+                        "reported": {k: sorted(map(str, v)) if v is not None else None for k, v in got.items()},
+                        "liberal": {k: sorted(map(str, v)) if v is not None else None for k, v in liberal.items()}})
             for uid in sorted(liberal):
                 lo, hi, r = strict.get(uid), liberal.get(uid), got.get(uid)
                 if hi is None:
@@ -507,7 +570,7 @@ def r_prims(rec):
 
 def r_sandwich(rec):
     thorough = bool(rec and rec.get("tier") == "thorough")
-    for seed, count, depth in ([(1, 600, 2), (2, 600, 3)] if not thorough else [(1, 3000, 2), (2, 3000, 3), (3, 1500, 4)]):
+    for seed, count, depth in ([("structured", 0, 0), (1, 600, 2), (2, 600, 3)] if not thorough else [("structured", 0, 0), (1, 3000, 2), (2, 3000, 3), (3, 1500, 4)]):
         msg = sandwich(seed, count, depth)
         if msg:
             return True, msg
